@@ -123,7 +123,7 @@ def run(tier, seed):
     R = C.Report(CID, tier, seed)
     rng = C.rng_for(seed, CID)
     n = 20000 if tier == 'quick' else 500000
-    P = R.proof_stage()
+    P = PS.proof_stage(R)
     proof_broken = not P['ok']
 
     sides = PS.Sides()
